@@ -1,1 +1,224 @@
-crate::list![];
+//! C16: the schedule is a symbolic input. With hook H3 every list operation
+//! calls `yield_point(site)` wherever it holds no lock (before each lock
+//! acquisition and in the lookup->use window of `List::get` / `ffi::list_get`).
+//! The harness installs a callback that, if a `kani::any()` schedule bit says
+//! so, runs the *other thread's* whole operation sequence at that point
+//! (preemption depth 1; the preempting operations run atomically, which is
+//! what the per-operation mutex guarantees natively for the critical sections).
+//!
+//! Oracles: CBMC's pointer checks (a read through an address obtained before
+//! the other thread's push reallocated the buffer is "dereference failure:
+//! deallocated dynamic object"), plus linearisability against the array model.
+use crate::cover;
+use crate::nd::{any, assume};
+use roto::verif_api::{list_verif, RotoOption, YIELD_HOOK};
+use roto::List;
+
+/// schedule points at which the running operation itself holds a list lock
+/// (second lock of `==`, `concat`): natively the other thread would block
+/// there, so no preemption is modelled at these sites
+const LOCK_HELD_SITES: [u32; 3] = [13, 16, 19];
+
+static mut SHARED: Option<List<u64>> = None;
+static mut FIRED_AT: u32 = 0; // site at which the preemption happened (0 = never)
+const PUSHED: [u64; 4] = [0x1111, 0x2222, 0x3333, 0x4444];
+
+/// common part of the other thread: decide (symbolically) whether to preempt here
+fn fire(site: u32) -> Option<&'static List<u64>> {
+    unsafe {
+        if FIRED_AT != 0 || LOCK_HELD_SITES.contains(&site) {
+            return None;
+        }
+        let fire: bool = any();
+        if !fire {
+            return None;
+        }
+        FIRED_AT = site;
+        (*std::ptr::addr_of!(SHARED)).as_ref()
+    }
+}
+
+/// four pushes: crosses the first growth boundary of a 1-element u64 list (capacity 4 -> 8)
+fn other_push4(site: u32) {
+    if let Some(l) = fire(site) {
+        l.push(PUSHED[0]);
+        l.push(PUSHED[1]);
+        l.push(PUSHED[2]);
+        l.push(PUSHED[3]);
+    }
+}
+
+/// one push: no reallocation
+fn other_push1(site: u32) {
+    if let Some(l) = fire(site) {
+        l.push(PUSHED[0]);
+    }
+}
+
+fn other_swap01(site: u32) {
+    if let Some(l) = fire(site) {
+        l.swap(0, 1);
+    }
+}
+
+fn other_clone_drop(site: u32) {
+    if let Some(l) = fire(site) {
+        let c = l.clone();
+        drop(c);
+    }
+}
+
+fn setup(other: fn(u32), n_init: usize) -> (List<u64>, [u64; 2]) {
+    let l: List<u64> = List::new();
+    let m: [u64; 2] = any();
+    if n_init >= 1 {
+        l.push(m[0]);
+    }
+    if n_init >= 2 {
+        l.push(m[1]);
+    }
+    unsafe {
+        FIRED_AT = 0;
+        SHARED = Some(l.clone());
+        YIELD_HOOK = Some(other);
+    }
+    (l, m)
+}
+
+fn teardown(l: List<u64>) {
+    unsafe {
+        YIELD_HOOK = None;
+        let s = (*std::ptr::addr_of_mut!(SHARED)).take();
+        std::mem::forget(s);
+    }
+    std::mem::forget(l);
+}
+
+/// Rust-side `get(0)` on a 1-element list while another thread pushes 4
+/// elements (reallocation): the element read must be the element stored, and
+/// no access may go through the old buffer.
+#[cfg_attr(kani, kani::proof)]
+#[cfg_attr(kani, kani::unwind(8))]
+#[cfg_attr(kani, kani::stub(std::sync::Mutex::lock, crate::stubs::mutex_lock_stub))]
+pub fn c16_get_vs_push4_realloc() {
+    let (l, m) = setup(other_push4, 1);
+    let g = l.get(0);
+    assert!(g == Some(m[0]), "get(0) returned something else than the stored element");
+    cover!(unsafe { FIRED_AT } == 1, "preempted_in_lookup_use_window");
+    cover!(unsafe { FIRED_AT } == 20, "preempted_before_lock");
+    cover!(unsafe { FIRED_AT } == 0, "not_preempted");
+    teardown(l);
+}
+
+/// script-side `get` (`ffi::list_get`) under the same schedule
+#[cfg_attr(kani, kani::proof)]
+#[cfg_attr(kani, kani::unwind(8))]
+#[cfg_attr(kani, kani::stub(std::sync::Mutex::lock, crate::stubs::mutex_lock_stub))]
+pub fn c16_ffi_get_vs_push4_realloc() {
+    let (l, m) = setup(other_push4, 1);
+    let mut slot = std::mem::MaybeUninit::<RotoOption<u64>>::uninit();
+    unsafe { list_verif::list_get(slot.as_mut_ptr() as *mut u8, &l, 0) };
+    let p = slot.as_ptr() as *const u8;
+    unsafe {
+        assert!(*p == 0, "in-range get must be Some");
+        assert!(std::ptr::read(p.add(8) as *const u64) == m[0], "wrong element");
+    }
+    cover!(unsafe { FIRED_AT } == 11, "preempted_in_lookup_use_window");
+    cover!(unsafe { FIRED_AT } == 0, "not_preempted");
+    teardown(l);
+}
+
+/// `get(i)` vs one push without reallocation: linearisable (index == old
+/// length sees the pushed element iff the push's critical section came first).
+#[cfg_attr(kani, kani::proof)]
+#[cfg_attr(kani, kani::unwind(8))]
+#[cfg_attr(kani, kani::stub(std::sync::Mutex::lock, crate::stubs::mutex_lock_stub))]
+pub fn c16_get_vs_push1_linearizable() {
+    let (l, m) = setup(other_push1, 2);
+    let i: usize = any();
+    assume(i <= 3);
+    let g = l.get(i);
+    let at = unsafe { FIRED_AT };
+    let pushed = PUSHED[0];
+    if i < 2 {
+        assert!(g == Some(m[i]));
+    } else if i == 2 {
+        // push before the lookup (preempted before get's lock) -> Some(pushed); otherwise None
+        if at == 20 {
+            assert!(g == Some(pushed), "push completed before the lookup but is not visible");
+        } else {
+            assert!(g.is_none(), "get saw an element that was pushed after its lookup");
+        }
+    } else {
+        assert!(g.is_none());
+    }
+    assert!(l.len() == if at != 0 { 3 } else { 2 });
+    cover!(at == 20 && i == 2, "push_first");
+    cover!(at == 1 && i == 2, "lookup_first");
+    teardown(l);
+}
+
+/// `len` / `push` on this thread vs 4 pushes on the other: nothing lost.
+#[cfg_attr(kani, kani::proof)]
+#[cfg_attr(kani, kani::unwind(8))]
+#[cfg_attr(kani, kani::stub(std::sync::Mutex::lock, crate::stubs::mutex_lock_stub))]
+pub fn c16_push_vs_push4() {
+    let (l, m) = setup(other_push4, 1);
+    let v: u64 = any();
+    l.push(v);
+    let at = unsafe { FIRED_AT };
+    let n = l.len();
+    assert!(n == if at != 0 { 6 } else { 2 }, "a push was lost");
+    assert!(l.get(0) == Some(m[0]));
+    // the running push lands after the other thread's pushes iff it was preempted before its lock
+    let idx = if at != 0 { 5 } else { 1 };
+    assert!(l.get(idx) == Some(v), "own push not at the linearisation position");
+    cover!(at == 17, "preempted_before_push_lock");
+    teardown(l);
+}
+
+/// `get(i)` vs `swap(0,1)` on the other thread
+#[cfg_attr(kani, kani::proof)]
+#[cfg_attr(kani, kani::unwind(10))]
+#[cfg_attr(kani, kani::stub(std::sync::Mutex::lock, crate::stubs::mutex_lock_stub))]
+#[cfg_attr(kani, kani::stub(core::ptr::swap_nonoverlapping, crate::stubs::swap_nonoverlapping_stub))]
+pub fn c16_get_vs_swap() {
+    let (l, m) = setup(other_swap01, 2);
+    let i: usize = any();
+    assume(i <= 1);
+    let g = l.get(i);
+    let at = unsafe { FIRED_AT };
+    // linearisable: either the value before or after the swap, consistent with the order of critical sections
+    if at == 20 {
+        assert!(g == Some(m[1 - i]), "swap completed before lookup but old element returned");
+    } else if at == 0 {
+        assert!(g == Some(m[i]));
+    } else {
+        // swapped while the pointer was held outside the lock: the clone reads the slot after the swap or before;
+        // both are admissible values of the list, anything else is a torn/stale read
+        assert!(g == Some(m[i]) || g == Some(m[1 - i]), "torn read");
+    }
+    cover!(at == 1, "preempted_in_window");
+    teardown(l);
+}
+
+/// `get(0)` while the other thread clones and drops a handle
+#[cfg_attr(kani, kani::proof)]
+#[cfg_attr(kani, kani::unwind(8))]
+#[cfg_attr(kani, kani::stub(std::sync::Mutex::lock, crate::stubs::mutex_lock_stub))]
+pub fn c16_get_vs_clone_drop() {
+    let (l, m) = setup(other_clone_drop, 1);
+    let g = l.get(0);
+    assert!(g == Some(m[0]));
+    cover!(unsafe { FIRED_AT } == 1, "preempted_in_window");
+    teardown(l);
+}
+
+crate::list![
+    c16_get_vs_push4_realloc,
+    c16_ffi_get_vs_push4_realloc,
+    c16_get_vs_push1_linearizable,
+    c16_push_vs_push4,
+    c16_get_vs_swap,
+    c16_get_vs_clone_drop,
+];
